@@ -12,11 +12,15 @@ def sh(cmd, **kw):
 res = {"name": name}
 sh("git checkout -- . && git clean -fdq src tests")
 demo = [f for f in os.listdir(d) if f.startswith("demo") and f.endswith(".py")][0]
+# the demo is run from <worktree>/SEEDED/ (where the sub-agent wrote it: some demos locate src/ relative to their own path)
+import shutil
+os.makedirs(f"{wt}/SEEDED", exist_ok=True)
+shutil.copy(f"{d}/{demo}", f"{wt}/SEEDED/{demo}")
 def run_demo():
     if demo.startswith("demo_test") or demo.endswith("_test.py"):
-        p = sh(f"/venv/bin/python -m pytest -q -p no:cacheprovider {d}/{demo}", timeout=900)
+        p = sh(f"/venv/bin/python -m pytest -q -p no:cacheprovider {wt}/SEEDED/{demo}", timeout=900)
     else:
-        p = sh(f"/venv/bin/python {d}/{demo}", timeout=900)
+        p = sh(f"/venv/bin/python {wt}/SEEDED/{demo}", timeout=900)
     return p.returncode, (p.stdout + p.stderr)[-800:]
 res["demo_without_patch_rc"], res["demo_without_patch_tail"] = run_demo()
 p = sh(f"git apply {d}/patch.diff")
